@@ -16,6 +16,12 @@ ROW_OF_LETTER = {"k": "かきくけこ", "g": "がぎぐげご", "s": "さしす
 ICHIDAN = [("マ", "上一", "み"), ("カ", "下一", "け"), ("バ", "下一", "べ"), ("ラ", "下一", "れ"), ("カ", "上一", "き")]
 
 
+# any character but space, '/' and ';' may occur in a candidate (skk-dic-parser: `[^ ' ' | '/' | ';']+`)
+CAND_EXTRA = list("#0123456789.,:!?()[]{}<>*+=~^_|&%$@'\"\\`") + ["　", "々", "〆", "ヶ", "é", "😀", "Ａ", "１"]
+SKK_SPECIAL = ["#0", "#1", "#2", "#3", "#4", "#5", "#8", "#9", "第#1", "#1月", "#0:#0", "#3年#1月", "C#", "F#1", "No.1", "#", "##",
+               "1#", "(concat)", "&amp", "a.b", "[x]", "~", "\\057"]
+
+
 def rnd(rng, pool, lo, hi):
     return "".join(rng.pick(pool) for _ in range(lo + rng.below(hi - lo + 1)))
 
@@ -25,7 +31,13 @@ def gen_skk(rng):
     ok = rng.pick(["", "", "k", "s", "r"])
     words = []
     for _ in range(1 + rng.below(3)):
-        w = rnd(rng, list(KANJI) + ["カ", "a", "1", "-"], 1, 3)
+        if rng.chance(1, 6):
+            # candidates SKK-JISYO files really contain: numeric templates, punctuation, Latin words, symbols
+            w = rng.pick(SKK_SPECIAL)
+            if rng.chance(1, 3):
+                w = rng.pick(list(KANJI)) + w
+        else:
+            w = rnd(rng, list(KANJI) + ["カ", "a", "1", "-"] + (CAND_EXTRA if rng.chance(1, 3) else []), 1, 3)
         ann = rng.pick(["", "", ";note", ";∥名詞", ";a b"])
         words.append((w, ann))
     line = rd + ok + rng.pick([" ", "  ", "\t"]) + "/" + "".join(w + a + "/" for w, a in words)
